@@ -9,6 +9,8 @@
       >= 11 branches) and is refuted.
  R03c producer kinds: the identification does not depend on the op kind of the producer
       (module / function / method).
+ R03h tracer coverage: SuperNetTracer.is_leaf_module, interpreted on small module trees, never
+      makes a module that (transitively) contains a choice block a leaf.
  R03g class coverage: the test by which export recognises combiner nodes accepts every
       combiner class the library instantiates (an exact-type test skips subclasses).
  R03d erase-all-losers: every other input of the combiner is erased, the combiner node is
@@ -37,6 +39,112 @@ def _not_winner(a, v, el, winner) -> bool:
     if a in (('cmp', 'is', el, winner), ('cmp', '==', el, winner)) and v is False:
         return True
     return False
+
+
+def r03h(ctx):
+    """Export can only replace combiners that appear as call_module nodes: the tracer must look
+    inside every module that (transitively) contains a choice block.  SuperNetTracer.
+    is_leaf_module is interpreted (finite interpreter) on small module trees: a container
+    holding a choice block directly, two levels down, or inside a user-defined block, and the
+    choice block itself, must not be leaves; a combiner must be one."""
+    import ast as _ast
+    from ..mini import Mini, Obj, Raised, Token, Unsupported
+    repo = ctx.repo
+    tr = repo.cls('SuperNetTracer')
+    fn = tr.methods.get('is_leaf_module')
+    if fn is None:
+        raise AnalysisError('R03h: SuperNetTracer.is_leaf_module not found')
+    K = {n: Token('cls:' + n) for n in ('Module', 'Sequential', 'ModuleList', 'Conv2d',
+                                        'SuperNetCombiner', 'SuperNetModule', 'UserBlock')}
+
+    def mk(cls, module, children=(), mro=()):
+        o = Obj('Module')
+        o.attrs.update({'_cls': K[cls], '_mro': [K[cls]] + [K[x] for x in mro] + [K['Module']],
+                        '__module__': module, '_children': list(children)})
+        return o
+
+    class _T(Mini):
+        def expr(self, e, env):
+            if isinstance(e, _ast.Attribute):
+                o = self.expr(e.value, env)
+                if isinstance(o, Obj) and e.attr not in o.attrs:
+                    return ('boundmethod', o, e.attr)
+                if isinstance(o, Obj):
+                    return o.attrs[e.attr]
+                return ('boundmethod', o, e.attr)
+            return super().expr(e, env)
+
+        def builtin(self, name, args, kwargs, node):
+            if name == 'isinstance':
+                o, c = args
+                cs = c if isinstance(c, tuple) and not (len(c) == 3 and c[0] == 'boundmethod') \
+                    else (c,)
+                return isinstance(o, Obj) and any(x in o.attrs.get('_mro', ()) for x in cs)
+            if name == 'type':
+                return args[0].attrs['_cls']
+            if name == 'str':
+                return args[0] if isinstance(args[0], str) else repr(args[0])
+            return super().builtin(name, args, kwargs, node)
+
+        def method(self, o, name, args, kwargs, node):
+            if isinstance(o, Obj) and '_children' in o.attrs:
+                def rec(x):
+                    out = [x]
+                    for c in x.attrs['_children']:
+                        out += rec(c)
+                    return out
+                if name == 'children':
+                    return list(o.attrs['_children'])
+                if name == 'modules':
+                    return rec(o)
+                if name == 'named_children':
+                    return [(str(i), c) for i, c in enumerate(o.attrs['_children'])]
+                if name == 'named_modules':
+                    return [(str(i), c) for i, c in enumerate(rec(o))]
+            if isinstance(o, str) and name in ('startswith', 'endswith', 'split', 'find'):
+                return getattr(o, name)(*args)
+            return super().method(o, name, args, kwargs, node)
+    nnpkg = Obj('pkg')
+    nnpkg.attrs.update({k: v for k, v in K.items()})
+    torchpkg = Obj('pkg')
+    torchpkg.attrs.update({'nn': nnpkg})
+    glob = {'torch': torchpkg, 'nn': nnpkg, 'SuperNetCombiner': K['SuperNetCombiner'],
+            'SuperNetModule': K['SuperNetModule'], 'fx': Obj('pkg')}
+    conv = lambda: mk('Conv2d', 'torch.nn.modules.conv')                     # noqa: E731
+    comb = lambda: mk('SuperNetCombiner', 'plinio.methods.supernet.nn.combiner')   # noqa: E731
+
+    def choice():
+        br = mk('ModuleList', 'torch.nn.modules.container', [conv(), conv()])
+        return mk('SuperNetModule', 'plinio.methods.supernet.nn.module', [br, comb()])
+    seq = lambda ch: mk('Sequential', 'torch.nn.modules.container', ch)      # noqa: E731
+    user = lambda ch: mk('UserBlock', '__main__', ch)                        # noqa: E731
+    worlds = [
+        ('a combiner', comb(), 'blk.sn_combiner', True),
+        ('a choice block', choice(), 'blk', False),
+        ('nn.Sequential holding a choice block', seq([choice(), conv()]), 'features', False),
+        ('nn.Sequential holding a choice block two levels down',
+         seq([seq([choice(), conv()]), conv()]), 'features', False),
+        ('nn.Sequential holding a user block with a choice block',
+         seq([user([choice()]), conv()]), 'features', False),
+        ('a user block holding a choice block', user([choice()]), 'stage', False),
+    ]
+    n = 0
+    for label, obj, name, want in worlds:
+        try:
+            got = _T(glob).call_function(fn.node, [Obj('Tracer'), obj, name])
+        except (Unsupported, Raised) as ex:
+            raise AnalysisError(f'R03h: is_leaf_module is outside the interpreted subset: {ex}')
+        n += 1
+        ok = bool(got) is want
+        ctx.ob('R03h', f'tracer on {label}', ok,
+               ('leaf' if want else 'traced through') if ok else
+               f'SuperNetTracer.is_leaf_module returns {bool(got)} for {label}'
+               + (': the module becomes one opaque call_module node, the combiner inside it '
+                  'never appears in the graph, and export() returns the whole choice block with '
+                  'all its alternatives (cost, summary and option updates skip it too)'
+                  if not want else ': the combiner is traced through instead of kept as the '
+                  'node export replaces'), where(fn))
+    ctx.floor('R03h', 'module-tree worlds', n, 6)
 
 
 def exact_type_predicate(repo, fn) -> bool:
@@ -71,6 +179,7 @@ def run(ctx):
     # switches every combiner (shared with C11)
     from .c11 import options_reach_every_layer
     options_reach_every_layer(ctx, 'R03f', only=('SuperNet',))
+    r03h(ctx)
     repo = ctx.repo
     eg = repo.fn('supernet.graph.export_graph')
     comb = repo.cls('SuperNetCombiner')
@@ -97,9 +206,12 @@ def run(ctx):
             # per-call-site leaf list, not over a list de-duplicated by module name
             loops = [c for c in e.ctx if c[0] == 'loop' and c[2] is not None]
             dom = loops[0][2] if loops else None
-            dedup = dom is not None and mentions(dom, lambda y: y[0] == 'call' and (
+            dedup = dom is not None and (mentions(dom, lambda y: y[0] == 'call' and (
                 (callee(y) or '').endswith('uniquify_leaf_modules') or
-                is_call(y, 'builtins.set', 'builtins.dict')))
+                is_call(y, 'builtins.set', 'builtins.dict', 'builtins.frozenset',
+                        'dict.fromkeys'))) or
+                # a dictionary / set comprehension keyed by the module keeps one node per module
+                mentions(dom, lambda y: y[0] == 'comp' and y[1] in ('dict', 'set')))
             all_sites = dom is not None and not dedup and (
                 mentions(dom, lambda y: y[0] == 'attr' and y[2] == 'nodes') or
                 mentions(dom, lambda y: y[0] == 'call' and
